@@ -794,6 +794,62 @@ func (f *front) taken() []attempt {
 var ceOf = map[string]string{"identity": "", "gzip": "gzip", "snappy": compresshttp.EncodingSnappy}
 var aeOf = map[string]string{"": "gzip" /* added by net/http itself */, "gzip": "gzip", "snappy+gzip": compresshttp.AcceptedEncodings, "unknown": "br"}
 
+// gate: a scheduler gate inside the upload stream. The reader handed out for the FIRST attempt stops in its third Read
+// - as a goroutine descheduled just before the read system call would - until the reader of a LATER attempt has read
+// its first chunk (or 400 ms pass). A client that lets a reader of an ended attempt touch the stream again thereby
+// loses or duplicates bytes of the later attempt, every time instead of once in a thousand runs.
+type gate struct {
+	mu      sync.Mutex
+	n       int
+	release chan struct{}
+	once    sync.Once
+	held    int
+}
+
+type gateTransformer struct {
+	signers.Transformer
+	g *gate
+}
+
+func (t gateTransformer) GetReader() (io.Reader, error) {
+	r, err := t.Transformer.GetReader()
+	if err != nil {
+		return nil, err
+	}
+	t.g.mu.Lock()
+	t.g.n++
+	k := t.g.n
+	t.g.mu.Unlock()
+	return &gatedReader{r: r, k: k, g: t.g}, nil
+}
+
+type gatedReader struct {
+	r     io.Reader
+	k     int
+	reads int
+	g     *gate
+}
+
+func (gr *gatedReader) Read(p []byte) (int, error) {
+	gr.reads++
+	if gr.k == 2 && gr.reads == 3 { // (k = 1 is the harness's own pass over the stream to compute the reference digest)
+		gr.g.mu.Lock()
+		gr.g.held++
+		gr.g.mu.Unlock()
+		select {
+		case <-gr.g.release:
+		case <-time.After(400 * time.Millisecond):
+		}
+	}
+	n, err := gr.r.Read(p)
+	if gr.k >= 3 && n > 0 {
+		gr.g.once.Do(func() { close(gr.g.release) })
+	}
+	return n, err
+}
+
+var useGate *gate
+
 // remoteSign mirrors cmdline/remotecmd/signcmd.go with the real CallRemote
 func (e *env) remoteSign(ti *pipelinex.TypeInfo, in string) (out string, h0 string, err error) {
 	out = outPath(ti, in)
@@ -810,6 +866,9 @@ func (e *env) remoteSign(ti *pipelinex.TypeInfo, in string) (out string, h0 stri
 	tr, q, mod, err := transformOf(ti, f, in)
 	if err != nil {
 		return out, "", err
+	}
+	if useGate != nil {
+		tr = gateTransformer{tr, useGate}
 	}
 	s0, err := tr.GetReader()
 	if err != nil {
@@ -994,10 +1053,30 @@ func Stale(args []string) {
 	if len(args) > 1 {
 		fmt.Sscan(args[1], &size)
 	}
+	gated := len(args) > 2 && args[2] == "gated"
 	e := newEnv(r)
 	defer e.close()
 	f, ts := newFront(e, os.Getenv("VERIF_H2") != "")
 	defer ts.Close()
+	// competing load: a reader of an ended attempt only does harm if it is scheduled late, which an idle machine rarely does
+	stop := make(chan struct{})
+	defer close(stop)
+	for k := 0; k < 2*runtime.NumCPU(); k++ {
+		go func() {
+			x := 0
+			for {
+				select {
+				case <-stop:
+					return
+				default:
+					for i := 0; i < 200000; i++ {
+						x += i * i
+					}
+					runtime.Gosched()
+				}
+			}
+		}()
+	}
 	ti := pipelinex.TypeByName("pgp-detached")
 	ki := e.w.Keys["rsa2048"]
 	for round := 0; round < rounds; round++ {
@@ -1010,7 +1089,18 @@ func Stale(args []string) {
 			in := e.fixture(ti, fmt.Sprintf("stale-%d-%s", round, offered), size)
 			var out, h0 string
 			var err error
+			if gated {
+				useGate = &gate{release: make(chan struct{})}
+			}
 			quiet(func() { out, h0, err = e.remoteSign(ti, in) })
+			if gated {
+				if useGate.held == 0 {
+					r.Count("gate_never_reached", 1)
+				} else {
+					r.Count("gate_held", 1)
+				}
+				useGate = nil
+			}
 			got := f.taken()
 			key := map[string]string{"engine": "stale", "kind": "body-differs", "offered": offered}
 			rep := map[string]any{"offered": offered, "script": script, "size": size}
